@@ -272,13 +272,13 @@ theorem tie_defaultCache :
 
 /-! ### rest/httpx.Parse (`Model.httpParse`) -/
 
-/-- path, form, headers, JSON body in this order, the first error wins -/
+/-- path, form, headers, JSON body in this order, the first error wins (stated from the test of the target's kind on: how
+`kind` is computed in front of it — with or without the nil guard of fixes/C08-nil-target.patch — is not part of the order) -/
 theorem tie_httpParseOrder :
-    httpParseShape.take 20 =
-      ["call mapping.Deref", "call mapping.Deref(reflect.TypeOf(v)).Kind",
-       "if kind != reflect.Array && kind != reflect.Slice {", "call ParsePath", "if err != nil {", "return", "}",
+    (httpParseShape.dropWhile (fun s => s != "if kind != reflect.Array && kind != reflect.Slice {")).take 18 =
+      ["if kind != reflect.Array && kind != reflect.Slice {", "call ParsePath", "if err != nil {", "return", "}",
        "call ParseForm", "if err != nil {", "return", "}", "call ParseHeaders", "if err != nil {", "return", "}", "}",
-       "call ParseJsonBody", "if err != nil {", "return", "}"] := by decide
+       "call ParseJsonBody", "if err != nil {", "return", "}"] := by decide +kernel
 
 /-- `GetFormValues`: empty values are skipped, names without a value left are dropped, a trailing `[]` is cut (`formParams`) -/
 theorem tie_getFormValues :
